@@ -65,7 +65,7 @@ Proof.
   assert (ED : concat ss = concat init ++ lst) by (rewrite ES, concat_app; simpl; rewrite app_nil_r; reflexivity).
   assert (LI : len ss = len init + 1) by (rewrite ES, len_app; reflexivity).
   unfold pack_strings, unpack_strings.
-  rewrite get_be_app by (rewrite pow256_4; unfold str_version_v2, M32; lia).
+  rewrite get_be_app by (rewrite pow256_4; unfold str_version_v2, g_str_v2, M32; lia).
   rewrite Z.eqb_refl.
   rewrite get_be_app by (rewrite pow256_4; lia).
   rewrite !len_app, be_len4.
@@ -106,9 +106,9 @@ Section StringProof.
     rewrite Enc. clear Enc.
     assert (G : forall tag c, len c < M32 ->
       string_dec cd ([tag] ++ be 4 (len src) ++ be 4 (len c) ++ c) =
-      if 3 <? tag / 16 then None else
-      if tag / 16 =? 0 then unpack_strings c
-      else match cd (if tag / 16 =? 1 then SSnappy else if tag / 16 =? 2 then SZstd else SLz4) c with
+      if negb ((tag / 16 =? g_str_raw) || (tag / 16 =? g_str_snappy) || (tag / 16 =? g_str_zstd) || (tag / 16 =? g_str_lz4)) then None else
+      if tag / 16 =? g_str_raw then unpack_strings c
+      else match cd (if tag / 16 =? g_str_snappy then SSnappy else if tag / 16 =? g_str_zstd then SZstd else SLz4) c with
            | Some raw => if len raw =? len src then unpack_strings raw else None
            | None => None
            end).
@@ -121,13 +121,6 @@ Section StringProof.
       rewrite app_nil_r, Z.ltb_irrefl.
       replace (firstn (Z.to_nat (len c)) c) with c by (unfold len; rewrite Nat2Z.id, firstn_all; reflexivity).
       reflexivity. }
-    destruct m.
-    - rewrite G by lia. change (0 / 16) with 0. change (3 <? 0) with false. change (0 =? 0) with true. cbv iota. exact UP.
-    - rewrite G by lia. change (16 * smode_tag SSnappy / 16) with 1. change (3 <? 1) with false. change (1 =? 0) with false.
-      change (1 =? 1) with true. cbv iota. rewrite comp_roundtrip by assumption. rewrite Z.eqb_refl. exact UP.
-    - rewrite G by lia. change (16 * smode_tag SZstd / 16) with 2. change (3 <? 2) with false. change (2 =? 0) with false.
-      change (2 =? 1) with false. change (2 =? 2) with true. cbv iota. rewrite comp_roundtrip by assumption. rewrite Z.eqb_refl. exact UP.
-    - rewrite G by lia. change (16 * smode_tag SLz4 / 16) with 3. change (3 <? 3) with false. change (3 =? 0) with false.
-      change (3 =? 1) with false. change (3 =? 2) with false. cbv iota. rewrite comp_roundtrip by assumption. rewrite Z.eqb_refl. exact UP.
+    destruct m; rewrite G by lia; unfold smode_tag; tagsimp; try (rewrite comp_roundtrip by assumption; rewrite Z.eqb_refl); exact UP.
   Qed.
 End StringProof.
